@@ -10,6 +10,7 @@
 * PATENTS file, you can obtain it at https://www.aomedia.org/license/patent-license.
 */
 
+#include "EbVerifHooks.h"
 #include "EbDefinitions.h"
 #include "EbPictureBufferDesc.h"
 
@@ -2477,6 +2478,28 @@ void parse_block(EbDecHandle *dec_handle, ParseCtxt *parse_ctx, uint32_t mi_row,
     mode->sb_type = subsize;
 
     mode_info(dec_handle, &part_info, parse_ctx);
+#ifdef SVT_AV1_VERIF
+    {   /* block-level tool usage of this temporal unit (several tile threads may parse concurrently) */
+        volatile long long *t = dec_handle->verif_tools;
+        const int inter = is_inter_block(mode);
+        __sync_fetch_and_add(&t[0], 1);                                                        /* blocks */
+        if (mode->palette_size[0] || mode->palette_size[1]) __sync_fetch_and_add(&t[1], 1);    /* palette */
+        if (mode->filter_intra_mode_info.use_filter_intra) __sync_fetch_and_add(&t[2], 1);     /* filter intra */
+        if (!inter && mode->uv_mode == UV_CFL_PRED) __sync_fetch_and_add(&t[3], 1);            /* chroma from luma */
+        if (mode->use_intrabc) __sync_fetch_and_add(&t[4], 1);                                 /* intra block copy */
+        if (inter && !mode->use_intrabc) {
+            if (mode->motion_mode == OBMC_CAUSAL) __sync_fetch_and_add(&t[5], 1);              /* OBMC */
+            if (mode->motion_mode == WARPED_CAUSAL) __sync_fetch_and_add(&t[6], 1);            /* local warp */
+            if (mode->is_inter_intra) __sync_fetch_and_add(&t[7], 1);                          /* inter-intra */
+            if (mode->ref_frame[1] > INTRA_FRAME) {
+                if (mode->inter_inter_compound.type == COMPOUND_WEDGE) __sync_fetch_and_add(&t[8], 1);
+                if (mode->inter_inter_compound.type == COMPOUND_DIFFWTD) __sync_fetch_and_add(&t[9], 1);
+                if (mode->inter_inter_compound.type == COMPOUND_DISTWTD) __sync_fetch_and_add(&t[10], 1);
+            }
+            if (mode->skip_mode) __sync_fetch_and_add(&t[11], 1);                              /* skip mode */
+        }
+    }
+#endif
 
     /* Initialize block or force splt block tu count to 0*/
     ZERO_ARRAY(parse_ctx->num_tus[AOM_PLANE_Y], 4);
